@@ -96,6 +96,21 @@ func (br *xmpReader) readAttribute(tag *Tag) (attr Attribute, err error) {
 	attr.pt = attrPType
 	attr.parent = tag.self
 
+	// Skip white space of any length before the attribute name
+	for {
+		if buf, err = br.Peek(1); err != nil {
+			err = errors.Wrap(err, "Attr")
+			return
+		}
+		if !isWhiteSpace(buf[0]) {
+			break
+		}
+		if _, err = br.Discard(1); err != nil {
+			err = errors.Wrap(err, "Attr (discard)")
+			return
+		}
+	}
+
 	// Attribute Name
 	if buf, err = br.Peek(maxTagHeaderSize); err != nil {
 		err = errors.Wrap(err, "Attr")
